@@ -153,7 +153,8 @@ def stepE2E (fields : List String) : Option String :=
             "ok", showReport r,
             "files=" ++ " ".intercalate (files.map (showEFile g render)),
             "lics=" ++ encodeList (licFilesOf cs),
-            "hyp=" ++ encodeBool (Spec.plainNames spdxTable (licFilesOf cs))])
+            -- the decidable hypotheses of C01_e2e_verdict_partial on this case: plainNames, noEmptyNoticeB
+            "hyp=" ++ encodeBool (Spec.plainNames spdxTable (licFilesOf cs)) ++ encodeBool (Spec.noEmptyNoticeB files)])
   | _ => none
 
 end Ops
